@@ -163,3 +163,6 @@ namespace W { inline std::string_view positive_example_cstr_view(const std::stri
 
 // positive example for the zero-expected rule C19 R19.4 (never called)
 namespace W { inline int positive_example_gmtime(std::time_t t) { const std::tm* p = std::gmtime(&t); return p ? p->tm_year : 0; } }
+
+// positive example for the zero-expected rule C01 R1.10 / C10 R10.16 (never called)
+namespace W { inline unsigned positive_example_narrow_counter(const std::string& s) { unsigned char quotes = 0; for (const char c : s) { if (c == '"') { ++quotes; } } return quotes; } }
